@@ -646,6 +646,37 @@ func (cc *checkCtx) checkProperty(prop string, seed int, known []KnownFinding, b
 				continue
 			}
 		}
+		// a clause of this unit's contract could not be evaluated (it names a variable, a
+		// function or a call that the code no longer has): the contract is out of step with
+		// the function, and what fails besides is no refutation
+		if rec.u != nil {
+			bad := ""
+			for _, e := range rec.u.errs {
+				if strings.Contains(e, "zz_contracts_verif.go:") {
+					bad = e
+					break
+				}
+			}
+			if bad != "" {
+				undecided++
+				if len(bad) > 160 {
+					bad = bad[:160]
+				}
+				cc.printf("UNDECIDED property=%s obligation=%s (a clause of this function's contract cannot be evaluated on the current code: %s; the contract has to follow)\n", prop, rec.o.Name, bad)
+				continue
+			}
+		}
+		// function literals are addressed by usage labels with ordinals (P.field:Handler#1,
+		// P.go#1, P.arg#2). If the contract of a sibling literal of the same kind has lost its
+		// target, the literals of P were renumbered: the contract of this unit may be sitting
+		// on another literal than the one it was written for
+		if rec.u != nil {
+			if sib := shiftedSibling(p, rec.u.Name); sib != nil {
+				undecided++
+				cc.printf("UNDECIDED property=%s obligation=%s (the function literals of the enclosing function were renumbered: the contract of %s at %s:%d has lost its target, so this contract may be attached to another literal than the one it was written for)\n", prop, rec.o.Name, sib.Target, sib.File, sib.Line)
+				continue
+			}
+		}
 		if rec.brokenLoop {
 			undecided++
 			what := "fails only behind the cut of a loop whose invariant no longer holds"
@@ -758,6 +789,25 @@ func (cc *checkCtx) checkProperty(prop string, seed int, known []KnownFinding, b
 func neverReturns(u *Unit) bool {
 	// a function whose every path panics (none in scope) would be flagged; keep strict
 	return false
+}
+
+// shiftedSibling: unit is "pkg.P.<kind>#k"; a missing contract target "P.<kind>#j" of the same
+// package means the ordinals of P's literals of that kind moved.
+func shiftedSibling(p *Prog, unit string) *MissingTarget {
+	i := strings.LastIndex(unit, "#")
+	if i < 0 {
+		return nil
+	}
+	stem := unit[:i+1] // pkg.P.kind#
+	if j := strings.Index(stem, "."); j >= 0 {
+		stem = stem[j+1:] // P.kind#
+	}
+	for _, mt := range p.MissingTargets {
+		if strings.HasPrefix(mt.Target, stem) && !strings.Contains(mt.Target[len(stem):], ".") {
+			return mt
+		}
+	}
+	return nil
 }
 
 func mentionsMissingTarget(p *Prog, rec *obRecord) *MissingTarget {
